@@ -97,6 +97,9 @@ def evaluate(case):
     g, cfg = case["g"], case["cfg"]
     gtext = G.to_text(g)
     try:
+        # a case-sensitive sibling of the same grammar is built first: nothing it compiled (keyword patterns,
+        # literals) may be shared with the case-insensitive metamodel
+        c01.make_metamodel(g, dict(cfg, ignore_case=False))
         mm = c01.make_metamodel(g, cfg)
     except TextXError as e:
         return out.add("grammar_rejected", f"{gtext!r}: {e}")
